@@ -86,7 +86,8 @@ theorem WF_reorder (l : Layout) (c : Nat) (T : List Nat) (hT : T.Nodup) (h : WF 
 theorem WF_operation (l : Layout) (c : Nat) (T fronts : List Nat) (h : WF l) : WF (PW.Routing.actOp l c T fronts) :=
   PW.Routing.WF_actOp l c T fronts h
 
-theorem WF_resize (l : Layout) (f : Nat) (h : WF l) : WF (PW.Routing.actResize l f) := PW.Routing.WF_actResize l f h
+theorem WF_resize (l : Layout) (f : Nat) (shrink : Bool) (h : WF l) : WF (PW.Routing.actResize l f shrink) :=
+  PW.Routing.WF_actResize l f shrink h
 theorem WF_trace_out (l : Layout) (c : Nat) (T : List Nat) (hT : T.Nodup) (h : WF l) :
     WF (PW.Routing.ceTraceOut l c T) := PW.Routing.WF_ceTraceOut l c T hT h
 theorem WF_povm_routing (l : Layout) (c : Nat) (T : List Nat) (hT : T.Nodup) (h : WF l) :
@@ -100,14 +101,14 @@ inductive Step where
   | act (c : Nat) (T : List Nat)
   | measure (M : List Nat)
   | operation (c : Nat) (T fronts : List Nat)
-  | resize (f : Nat)
+  | resize (f : Nat) (shrink : Bool)
 
 def step (l : Layout) : Step → Layout
   | .combine c T => combine l c T
   | .act c T => route l c T
   | .measure M => removeMeasured l M
   | .operation c T fronts => PW.Routing.actOp l c T fronts
-  | .resize f => PW.Routing.actResize l f
+  | .resize f shrink => PW.Routing.actResize l f shrink
 
 theorem WF_history (l : Layout) (h : WF l) (hist : List Step) : WF (hist.foldl step l) := by
   induction hist generalizing l with
@@ -119,7 +120,7 @@ theorem WF_history (l : Layout) (h : WF l) (hist : List Step) : WF (hist.foldl s
     | act c T => exact PW.Layout.WF_route l c T h
     | measure M => exact WF_removeMeasured l M h
     | operation c T fronts => exact PW.Routing.WF_actOp l c T fronts h
-    | resize f => exact PW.Routing.WF_actResize l f h
+    | resize f shrink => exact PW.Routing.WF_actResize l f shrink h
 
 /-- the public index derived from the partition: (product-space position, tensor position) -/
 def indexOf (l : Layout) (c x : Nat) : Option (Nat × Nat) :=
